@@ -126,7 +126,7 @@ var c03Verbatims = []string{
 	"plain é 中", "", " ", "\n", "{{ \"q\" }}{% set a = 1 %}", "{%- if -%}", "{{- x -}}", "{% verbatim %}", "#{ }", "{{{{",
 	// near misses of the end tag: only {% endverbatim %} itself, with optional blanks and trim markers, ends the body
 	"{% endverbatims %}", "a{% endverbatim_x %}b", "{%endverbatim2%}", "{% end verbatim %}", "{% endverbatim", "{% endverbatim x %}", "{ % endverbatim %}", "{% endverbatim % }", "{% ENDVERBATIM %}",
-	"{%endverbatimé%}", "{{ endverbatim }}", "{% endverbatim -- %}", "{%~ endverbatim %}", "'{% endverbati' ~ 'm %}'", "{% xendverbatim %}", "{%\vendverbatim %}",
+	"{%endverbatimé%}", "{% endraw %}", "{% raw %}x{% endraw %}", "{%- endraw -%}", "{% endautoescape %}", "{% endblock %}{% endif %}{% endfor %}", "{{ endverbatim }}", "{% endverbatim -- %}", "{%~ endverbatim %}", "'{% endverbati' ~ 'm %}'", "{% xendverbatim %}", "{%\vendverbatim %}",
 }
 
 var c03Comments = []string{" c ", "", "\n multi\n line \n", " {{ x }} ", " {% if %} ", " # } ", " é 中 ", "-", " {# nested open ", " '\" ", " }} %} "}
